@@ -432,7 +432,7 @@ def _resolve_pcs(job):
 
 def _history(events):
     h = {"puts": {}, "gets": [], "writes": [], "commits": [], "applies": [], "thr": events[0].get("thr"),
-         "nodes": events[0].get("nodes"), "quiescent_step": None}
+         "nodes": events[0].get("nodes"), "quiescent_step": None, "events": events}
     calls = {}
     for e in events:
         ev = e.get("ev")
@@ -485,6 +485,139 @@ def _write_of(h, p):
     return None
 
 
+# Lease analysis of a write into a segment whose sealing the writing node had already applied.
+#
+# Evidence (recorded by the simulator for EVERY job, harness/cluster/src/world.rs + logcap.rs; nothing is guessed):
+#   * `log` events: statements of the code under test, stamped with scheduler step and task. The one that matters is
+#     `update_leases node=N leases={..}` of NodeController::update_leases: it is emitted in the very step in which the
+#     expected lease set was computed from N's applied metadata (there is no scheduling point between owned_topics()
+#     and the first await inside Storage::update_leases), so it says WHO refreshed WHICH node's leases WHEN and with
+#     WHAT. `write rejected for K` marks a failed lease check.
+#   * `at` events: every step of a task that starts or ends at a scheduling point in bucket.rs (label left, label
+#     parked at). The labels of Storage::update_leases' read/write acquisitions and of ensure_lease's read are located
+#     in the CURRENT sources by snippet + enclosing fn (`labels()`: L63, L69, L112), so patches may shift lines.
+#     From them: the step in which a refresh compared the lease set with its expected set (fast path: returns, set ==
+#     expected) or assigned it (slow path, the step that leaves the write acquisition), and the step in which a lease
+#     check was evaluated.
+#   * `write` (step, task, node, seg), `apply` (step, node, idx), `call` (step, client) events as before.
+#
+# Causes (for a write at step w by task T on node n into segment s, n having applied the sealing of s at step a < w;
+# "T's refresh" = the LAST lease refresh of node n that T itself ran since the call of the PUT it is executing):
+#   lease_check_not_atomic_with_write     T's refresh computed its expected set at r < a: the recorded finding (expected
+#                                         set computed before the apply, lease check / lock / write after it)
+#   lease_regranted_by_stale_refresh      T's refresh ran after the apply (r > a) and revoked/found revoked the lease,
+#                                         but the LAST assignment of n's lease set between T's refresh and T's lease
+#                                         check was made by ANOTHER task's refresh whose expected set was computed
+#                                         before the apply and contains s (the same non-atomicity, seen from a second
+#                                         refresher; finding DW-C23-STALE-REFRESH-REGRANTS-LEASE)
+#   lease_refresh_after_apply_kept_lease  T's refresh ran entirely after the apply and nobody re-granted the lease: the
+#                                         refresh should have revoked it (NOT the recorded finding)
+#   no_lease_refresh_before_write         T ran no lease refresh at all between the call and the write (NOT recorded)
+#   undetermined                          evidence missing or inconsistent (matches no finding; must not occur on the
+#                                         unchanged tree: every job carries the evidence)
+LEASE_KNOWN = ("lease_check_not_atomic_with_write", "lease_regranted_by_stale_refresh")
+
+
+def _lease_evidence(h):
+    if "lease" in h:
+        return h["lease"]
+    lab = labels()
+    L63, L69, L112 = lab["L63"], lab["L69"], lab["L112"]
+    ats, logs = {}, []
+    for e in h["events"]:
+        ev = e.get("ev")
+        if ev == "at":
+            ats.setdefault(e["task"], []).append((e["step"], e["from"], e["to"]))
+        elif ev == "log":
+            logs.append(e)
+
+    def blocked(l):
+        return l.endswith("#blocked")
+
+    refreshes = []
+    for e in logs:
+        m = re.match(r"update_leases node=(\d+) leases=\{(.*)\}$", e["msg"])
+        if not m:
+            continue
+        rec = {"task": e["task"], "node": int(m.group(1)), "keys": sorted(re.findall(r'"([^"]*)"', m.group(2))),
+               "r": e["step"], "path": None, "compare": None, "effect": None}
+        seq = [x for x in ats.get(e["task"], []) if x[0] >= e["step"]]
+        if seq and seq[0][0] == e["step"] and seq[0][2].startswith(L63) and not blocked(seq[0][2]):
+            cur = "read"
+            for step, frm, to in seq[1:]:
+                if cur == "read":
+                    if not frm.startswith(L63):
+                        break
+                    if to.startswith(L63) and blocked(to):
+                        continue
+                    rec["compare"] = step
+                    if to.startswith(L69) and not blocked(to):
+                        cur = "write"
+                        continue
+                    rec.update(path="fast", effect=step)      # set == expected in this step, nothing assigned
+                    break
+                else:
+                    if not frm.startswith(L69):
+                        break
+                    if to.startswith(L69) and blocked(to):
+                        continue
+                    rec.update(path="assign", effect=step)    # set := expected in this step
+                    break
+        refreshes.append(rec)
+    checks = []
+    for task, seq in ats.items():
+        for step, frm, to in seq:
+            if frm.startswith(L112) and not (to.startswith(L112) and blocked(to)):
+                rej = [l["msg"] for l in logs if l["step"] == step and l["task"] == task and l["msg"].startswith("write rejected for ")]
+                checks.append({"task": task, "step": step, "passed": not rej})
+    h["lease"] = {"refreshes": refreshes, "checks": checks, "n_logs": len(logs), "n_at": sum(len(v) for v in ats.values())}
+    return h["lease"]
+
+
+def _lease_cause(h, w, applied_at):
+    """w: the full write event; applied_at: step at which w's node applied the sealing of w's segment (< w.step).
+    Returns {"cause": .., + the evidence the decision rests on}."""
+    le = _lease_evidence(h)
+    T, n, key = str(w.get("task", "")), w["node"], "t_%s_s_%d" % (w["t"], w["seg"])
+    out = {"writer_task": T}
+    if not any(r["effect"] is not None for r in le["refreshes"]) or le["n_at"] == 0:
+        return dict(out, cause="undetermined", why="the job recorded no lease refresh evidence (log/at events)")
+    if not re.match(r"c\d+$", T) or applied_at is None or applied_at >= w["step"]:
+        return dict(out, cause="undetermined", why="writer is not a client task or the apply step is unknown")
+    calls = [e["step"] for e in h["events"] if e.get("ev") == "call" and e.get("op") == "put" and "c%d" % e["c"] == T and e["step"] <= w["step"]]
+    if not calls:
+        return dict(out, cause="undetermined", why="no PUT call of the writing task before the write")
+    call = max(calls)
+    own = [r for r in le["refreshes"] if r["task"] == T and r["node"] == n and call <= r["r"] <= w["step"]]
+    out["put_call_step"], out["apply_step"], out["write_step"] = call, applied_at, w["step"]
+    if not own:
+        return dict(out, cause="no_lease_refresh_before_write")
+    last = max(own, key=lambda r: r["r"])
+    out["refresh"] = {k: last[k] for k in ("r", "keys", "path", "effect")}
+    if last["effect"] is None or last["effect"] > w["step"]:
+        return dict(out, cause="undetermined", why="the writer's last refresh did not complete before the write")
+    if last["r"] < applied_at:
+        return dict(out, cause="lease_check_not_atomic_with_write")
+    # the writer's own refresh ran entirely after the apply
+    if key in last["keys"]:
+        return dict(out, cause="lease_refresh_after_apply_kept_lease", expected_contained_sealed_segment=True)
+    chk = [c for c in le["checks"] if c["task"] == T and c["passed"] and last["effect"] <= c["step"] <= w["step"]]
+    if not chk:
+        return dict(out, cause="undetermined", why="no passed lease check of the writer between its refresh and the write")
+    k = max(c["step"] for c in chk)
+    out["lease_check_step"] = k
+    # the lease set the check read was assigned last by: T's refresh, or a later assignment of another refresher
+    later = [r for r in le["refreshes"] if r["node"] == n and r["task"] != T and r["path"] == "assign" and last["effect"] < r["effect"] < k]
+    if later:
+        x = max(later, key=lambda r: r["effect"])
+        out["last_assignment_before_check"] = {kk: x[kk] for kk in ("task", "r", "keys", "effect")}
+        if key in x["keys"] and x["r"] < applied_at:
+            return dict(out, cause="lease_regranted_by_stale_refresh")
+        if key in x["keys"]:
+            return dict(out, cause="undetermined", why="a refresh computed after the apply expected the sealed segment")
+    return dict(out, cause="lease_refresh_after_apply_kept_lease")
+
+
 def _why_lost(h, p):
     """Attributes explaining why acknowledged payload p cannot be delivered."""
     pu = h["puts"][p]
@@ -507,6 +640,7 @@ def _why_lost(h, p):
     d["bogus_count"] = s["cnt"] > had
     if applied_at is not None and applied_at < w["step"]:
         d["cause"] = "append_after_sealing_applied"       # the writing node had applied the sealing (C23)
+        d["lease_cause"] = _lease_cause(h, w, applied_at)["cause"]   # WHY the node still wrote (see _lease_cause)
     elif s["step"] < w["step"]:
         d["cause"] = "append_after_count_capture"         # sealing committed, owner still admits appends
     elif pos > s["cnt"]:
@@ -523,7 +657,7 @@ ROOT_CAUSES = ("append_after_count_capture", "append_after_sealing_applied")
 def _root_cause(h, offenders, victims):
     """The first payload (offenders first) whose write lies beyond the sealed count of its segment explains
     the divergence; otherwise the attributes of the first victim are reported."""
-    first = None
+    first, known = None, None
     for p in list(offenders) + list(victims):
         if p not in h["puts"]:
             continue
@@ -531,9 +665,11 @@ def _root_cause(h, offenders, victims):
         w["payload"] = p
         if first is None:
             first = w
-        if w.get("cause") in ROOT_CAUSES:
-            return w
-    return first or {"cause": "unknown"}
+        if w.get("cause") == "append_after_sealing_applied" and w.get("lease_cause") not in LEASE_KNOWN:
+            return w      # a write the recorded lease finding does not explain is never hidden behind one that it does
+        if known is None and w.get("cause") in ROOT_CAUSES:
+            known = w
+    return known or first or {"cause": "unknown"}
 
 
 def classify_c22(events, verdict):
@@ -613,11 +749,17 @@ def classify_c23(events, verdict):
     d["seg"], d["node"] = k["seg"], k["node"]
     d["kind"] = "write_after_sealing_applied" if view.get("cur", 0) > k["seg"] else "write_into_foreign_segment"
     sealed = _segment_facts(h, k["t"]).get(k["seg"])
+    applied_at = None
     if sealed:
         applied_at = next((a["step"] for a in h["applies"] if a["node"] == k["node"] and a["idx"] == sealed["idx"]), None)
         d["steps_since_apply"] = k["step"] - applied_at if applied_at is not None else -1
-    d["cause"] = "lease_check_not_atomic_with_write"
     d["writer"] = "client" if str(k.get("task", "")).startswith("c") else str(k.get("task"))
+    if d["kind"] == "write_after_sealing_applied":
+        lc = _lease_cause(h, k, applied_at)
+        d["cause"] = lc.pop("cause")
+        d["lease_evidence"] = lc
+    else:
+        d["cause"] = "write_outside_owned_segment"
     return d
 
 
@@ -772,10 +914,13 @@ def generate_behaviours(tier, seed):
                     "  Clients <- ClientsDef\n  Prog <- ProgDef\n  ProgSel = \"%s\"\n  MaxCmds = 4\n  WithMonitor = TRUE\n"
                     "  WithSync = TRUE\n  AtomicCount = FALSE\n  LeaseUnderLock = FALSE\n  LeaseOnApply = FALSE\n"
                     "  FreshReads = FALSE\nINVARIANT PrintDone\nCONSTRAINT NotDoneYet\nCHECK_DEADLOCK FALSE\n" % (init, thr, sel))
-        rc, out, wall = C.tlc(os.path.join(C.SPEC, "MC_DataPlane.tla"), cfg, d, workers=4, env=TMPENV,
-                              extra=["-simulate", "num=%d" % n, "-depth", "140", "-seed", str(seed)],
-                              timeout=45 if tier == "thorough" else 6)   # TLC keeps walking; the time box bounds it
-        behs = sorted(set(re.findall(r'<<"BEH", "(.*)">>', out)))
+        box = 45 if tier == "thorough" else 6      # TLC keeps walking; the time box bounds it
+        for attempt in range(3):                  # on a loaded machine the JVM may not get to walk within the box
+            rc, out, wall = C.tlc(os.path.join(C.SPEC, "MC_DataPlane.tla"), cfg, d, workers=4, env=TMPENV,
+                                  extra=["-simulate", "num=%d" % n, "-depth", "140", "-seed", str(seed)], timeout=box * (2 ** attempt))
+            behs = sorted(set(re.findall(r'<<"BEH", "(.*)">>', out)))
+            if behs:
+                break
         random.Random(seed).shuffle(behs)
         behs = behs[:(3000 if tier == "thorough" else 300)]
         parsed = []
@@ -979,7 +1124,9 @@ def pipeline(tier):
                 rec["c23_verdict"] = {k: v23[g].get(k) for k in ("matched", "index", "event")}
             if not (v22[g]["ok"] and v23[g]["ok"]) or end.get("status") != "ok":
                 rec["job"] = job
-                rec["trace"] = [x for x in e if x.get("ev") in ("call", "ret", "commit", "apply", "write", "note")]
+                qs = next((x["step"] for x in e if x.get("ev") == "note" and x.get("what") == "quiescent"), 10 ** 9)
+                rec["trace"] = [x for x in e if x.get("ev") in ("call", "ret", "commit", "apply", "write", "note")
+                                or (x.get("ev") in ("log", "at") and e[0].get("setup_steps", 0) < x.get("step", 0) <= qs)]
                 rec["taken"] = end.get("taken", "")
                 rec["msg"] = end.get("msg")
             groups[g] = rec
@@ -1003,24 +1150,50 @@ def pipeline(tier):
         return res
 
 
+# UNREALIZABLE POLICY. A schedule generated by TLC from the DataPlane design (modes tlc_counterexample, tlc_behaviour)
+# names, step by step, the task to run and the scheduling point it must reach. When the code cannot follow a step
+# (the task is blocked or finished, or never parks at the named point) the code has left the design, or the design
+# is wrong. Such a run is never dropped:
+#   1. the simulator skips the step, follows the rest of the script as far as it can and finishes the clients under
+#      the default policy (world.rs), so the run yields a complete history;
+#   2. that history is judged against the CONTRACT like every other one: a real violation in it is reported
+#      (VIOLATION, exit 1) whatever the state of the design;
+#   3. each such schedule is a MODEL-DRIFT line and is counted in the evidence (generated_schedules,
+#      unrealizable_generated_schedules, unrealizable_share, examples);
+#   4. a design-driven exploration of which more than UNREALIZABLE_MAX_SHARE could not be followed did not explore
+#      what the evidence would claim: when no violation was found the check ends with a TOOL ERROR (exit 2, nothing
+#      is claimed) instead of exit 0. On the unchanged tree the count is 0 (verified for seeds 1-3), so the threshold
+#      only leaves room for a handful of schedules after a harmless refactoring of the code.
+# Scripted corpus schedules that cannot be followed are listed the same way (MODEL-DRIFT + evidence) but do not count
+# towards the share: they are single regression points, not the coverage claim.
+GENERATED_MODES = ("tlc_counterexample", "tlc_behaviour")
+UNREALIZABLE_MAX_SHARE = 0.02
+
+
 def _check(pid, tier):
     t0 = time.time()
     p = pipeline(tier)
     findings = C.load_findings() + _extra_findings()
     okk, divk = ("c22_ok", "c22_div") if pid == "C22" else ("c23_ok", "c23_div")
     known, violations, drift, guard_leaks = {}, [], [], 0
-    confirmed = []
+    confirmed, unreal, unreal_corpus, n_generated = [], [], [], 0
     for g, r in sorted(p["groups"].items()):
         div = None
         if not r[okk]:
             div = dict(r[divk])
         elif pid == "C22" and r["status"] in ("panic", "hang", "deadlock", "drain_hang", "died"):
             div = {"property": "C22", "kind": r["status"], "cause": "code_under_test_" + r["status"]}
-        if r["mode"] in ("tlc_counterexample", "tlc_behaviour"):
+        if r["mode"] in GENERATED_MODES:
+            n_generated += 1
             if r.get("unrealizable"):
+                unreal.append(g)
                 drift.append("schedule %s generated from the DataPlane design cannot be followed by the code (%s)" % (g, r.get("note")))
             elif r.get("drift"):
                 drift.append("responses of %s differ from the design's prediction: %s" % (g, r["drift"][:2]))
+        if r["mode"] == "corpus" and r.get("unrealizable"):
+            unreal_corpus.append(g)
+            drift.append("scripted corpus schedule %s cannot be followed by the code (%s): it no longer reaches what it was "
+                         "written for" % (g, r.get("note")))
         if r["mode"] == "tlc_counterexample":
             inv = p["mc"]["configs"][g[4:]]
             expected_here = (pid == "C22" and inv.get("viol22", "none") != "none") or (pid == "C23" and inv.get("viol23", "none") != "none")
@@ -1052,6 +1225,8 @@ def _check(pid, tier):
         print("KNOWN-FINDING: property=%s %s [%s, seen %d time(s)]" % (pid, rec["finding"]["what_fails"], fid, rec["count"]))
     for d in drift[:10]:
         print("MODEL-DRIFT: %s" % d)
+    if len(drift) > 10:
+        print("MODEL-DRIFT: ... and %d more (%d of %d generated schedules could not be followed)" % (len(drift) - 10, len(unreal), n_generated))
     for path, div in violations[:20]:
         print("VIOLATION property=%s replay=%s" % (pid, path))
         C.log("  divergence: %s" % json.dumps(div))
@@ -1061,6 +1236,11 @@ def _check(pid, tier):
     holds = {n: r for n, r in mc["configs"].items() if r["expect"] == "holds"}
     cex = {n: r for n, r in mc["configs"].items() if r["expect"] != "holds"}
     groups = p["groups"]
+    lease_causes = {}
+    for r in groups.values():
+        lc = (r.get("c23_div") or {}).get("cause") if pid == "C23" else (r.get("c22_div") or {}).get("lease_cause")
+        if lc and (pid == "C22" or (r.get("c23_div") or {}).get("kind") == "write_after_sealing_applied"):
+            lease_causes[lc] = lease_causes.get(lc, 0) + 1
     kinds = {}
     for path, div in violations:
         k = "%s/%s" % (div.get("kind"), div.get("cause"))
@@ -1090,13 +1270,30 @@ def _check(pid, tier):
         "known_findings_seen": {k: v["count"] for k, v in known.items()},
         "guard_leaks": guard_leaks,
         "drift": len(drift),
+        "generated_schedules": n_generated,
+        "unrealizable_generated_schedules": len(unreal),
+        "unrealizable_share": round(len(unreal) / float(max(1, n_generated)), 4),
+        "unrealizable_max_share": UNREALIZABLE_MAX_SHARE,
+        "unrealizable_examples": [{"id": g, "reason": groups[g].get("note"), "steps_not_followed": groups[g].get("unrealizable")}
+                                  for g in (unreal + unreal_corpus)[:5]],
+        "unrealizable_corpus_schedules": unreal_corpus,
+        "lease_causes_seen": lease_causes,
         "avoidance_guards": GUARDS,
         "sim_steps": p["stats"]["sim_steps"], "trace_events": p["stats"]["trace_events"],
         "trace_tlc_states": p["stats"]["trace_tlc_states_" + pid.lower()],
         "pipeline": p["stats"], "selftest": p.get("selftest"),
     }
     C.write_evidence(pid, tier, "model_checking", coverage, time.time() - t0, assumptions=ASSUMPTIONS, violations=len(violations))
-    return C.EXIT_VIOLATION if violations else C.EXIT_OK
+    if violations:
+        return C.EXIT_VIOLATION
+    if len(unreal) > UNREALIZABLE_MAX_SHARE * n_generated:
+        raise C.ToolError("%d of %d schedules generated from the DataPlane design (%.1f%% > %.1f%%) cannot be followed by the code, e.g. "
+                          "%s: %s. The code left the design (or the design is wrong); the design-driven part of the exploration "
+                          "did not explore what it claims, so no verdict is given (the histories of these runs were still "
+                          "judged against the contract: no violation among them)"
+                          % (len(unreal), n_generated, 100.0 * len(unreal) / max(1, n_generated), 100.0 * UNREALIZABLE_MAX_SHARE,
+                             unreal[0], groups[unreal[0]].get("note")))
+    return C.EXIT_OK
 
 
 def c22(tier):
